@@ -71,7 +71,7 @@ def run(ctx):
     # ---------------- engine `history`: random operation sequences, trace of cache keys and generator state (exact) ----------
     eng = ctx.engine('history')
     requests, results, pending = [], [], []
-    for seq_i in range(ctx.budget(40, 400)):
+    for seq_i in range(ctx.budget(60, 600)):
         fdm.FD_RULES.clear()
         objs, toks, impl_trace = [], [], []
         length = rng.randint(3, 12)
@@ -87,7 +87,7 @@ def run(ctx):
             if paired:
                 kind = 'C' if len(objs) < 2 else rng.choice(['K', 'K', 'K', 'C'])
             elif reconf:
-                kind = 'C' if not objs else rng.choice(['M', 'M', 'M', 'O', 'N', 'K', 'K', 'K'])
+                kind = 'C' if not objs else rng.choice(['M', 'M', 'O', 'N', 'N', 'K', 'K', 'K'])
             if kind == 'C' and len(objs) < 5:
                 m = rng.choice(['central', 'forward', 'backward', 'complex', 'multicomplex'])
                 n = rng.randint(1, 2 if m == 'multicomplex' else 4)
@@ -127,11 +127,13 @@ def run(ctx):
                 toks.append('K,%d,x%d' % (i, len(toks)))
                 impl_trace.append((sorted(fdm.FD_RULES), (str(st.method), int(st.n), int(st.order))))
                 requests.append({'cls': 'Derivative', 'f': objs[i]['f'], 'n': cfg['n'], 'method': cfg['method'], 'order': cfg['order'], 'x': x,
-                                 'step_ratio': getattr(d.step, '_step_ratio', None)})
+                                 'step_ratio': cfg['sr']})
                 results.append(pack(val, info))
                 ctx.tried((seq_i, step_i))
             elif kind == 'N':
                 newn = rng.randint(1, 4)
+                if rng.random() < 0.5:
+                    newn = 1 if cfg['n'] > 1 else rng.randint(2, 4)      # cross the n = 1 / n > 1 boundary (default ratio 2 / 1.6)
                 if cfg['method'] == 'multicomplex':
                     newn = min(newn, 2)
                 d.n = newn
@@ -164,6 +166,7 @@ def run(ctx):
                 same_family = (objs[j]['method'] in REAL) == (cfg['method'] in REAL)
                 if same_family:
                     d.step = objs[j]['d'].step
+                    cfg['sr'] = objs[j]['sr']          # the options of the generator now in use (tracked here, not read back)
                     toks.append('S,%d,%d' % (i, j))
                 else:
                     toks.append('O,%d,%d' % (i, cfg['order']))
